@@ -389,6 +389,15 @@ LIST_ELEMENTS = ['a', 'b', 'a.b', 'a[0]', 'a()', '(a)', '(a, b)', '[a, b]', '*a'
                  '[]', '{}', '1 + 1', '1 = 1', 'None = 1', 'True := 1', 'a.b := 1', 'a: b = c', '*a: int', '**k: int', 'a=1, b',
                  'self', 'cls', 'T: int', '*Ts', '**P', 'T = int', 'a | b', '_', 'A()', 'a.b()', 'k=v', '"k": v', '**rest',
                  'lambda: (yield)', 'lambda x: x', 'lambda *, x: x', 'async', 'await', 'print', 'exec', 'nonlocal', 'match', 'case']
+# postfix expressions on compound atoms and comparisons between them (rules that look at `atom_expr` children, E711/E721 ...)
+_BASES = ['(a)', '(a or b)', '[a, b]', '[1, 2]', '{a: b}', "{'k': 1}", '{a}', '"s"', 'f"{a}"', '"a" "b"', '(a, b)', '()', '[]', 'a', 'type(a)',
+          '(f)', '(lambda: 0)', '[x for x in y]', 'None', 'True', '...', '1', 'a.b']
+_TRAILERS = ['[0]', '(x)', '.y', '()', "['k']", '[0](x)', '(x)[0]', '.y.z', '[1:2]', '(*a)', '']
+_CMP = ['==', '!=', '<', '>', '<=', '>=', ' is ', ' is not ', ' in ', ' not in ']
+LIST_ELEMENTS += [b + t for b in _BASES for t in _TRAILERS[:6]]
+LIST_ELEMENTS += ['%s%s %s %s' % (b, t, c.strip() if c.strip() in ('==', '!=', '<', '>', '<=', '>=') else c.strip(), r)
+                  for b in _BASES[:12] for t in ('[0]', '(x)', '') for c in _CMP[:8] for r in ('1', 'None', 'c', 'type(b)', "'a'")][::7]
+
 LIST_WRAPS = ['%s', '%s', '%s', 'def g():\n %s', 'async def g():\n %s', 'class C:\n %s', 'def g():\n def h():\n  %s',
               'for q in z:\n %s', 'if 1:\n %s\nelse:\n pass', 'try:\n %s\nfinally:\n pass', 'class C:\n def m(self):\n  %s',
               'async def g():\n async with a:\n  %s', 'lambda: [\n %s\n]' ]
